@@ -196,8 +196,8 @@ pub fn c07(ctx: &Ctx) -> Report {
         s.max_sends = 1;
         s.send = vec![(0, Seal::Sha1, 0)];
         s.poll_whens = vec![When::Wake];
-        s.resp = vec![(2, Auth::Sha1(4), 0), (2, Auth::Sha1(5), 0), (2, Auth::Sha256(5), 0), (2, Auth::Sha1(6), 0), (2, Auth::Sha1(7), 0), (2, Auth::Sha1(8), 0), (2, Auth::Sha256(9), 0), (2, Auth::Sha1(1), 0)];
-        s.set_remote = vec![1, 4, 8];
+        s.resp = vec![(2, Auth::Sha1(4), 0), (2, Auth::Sha1(5), 0), (2, Auth::Sha256(5), 0), (2, Auth::Sha1(6), 0), (2, Auth::Sha1(7), 0), (2, Auth::Sha1(8), 0), (2, Auth::Sha256(9), 0), (2, Auth::Sha1(1), 0), (2, Auth::Sha1(10), 0), (2, Auth::Sha1(11), 0), (2, Auth::Sha256(11), 0)];
+        s.set_remote = vec![1, 4, 8, 10];
         runs.push(SliceRun { slice: s, depth: ctx.tier.pick(6, 8) });
     }
     let req = ["response delivered", "forged or unauthenticated response dropped, state unchanged (self-loop)", "genuine SHA-1 response delivered to an authenticated request", "genuine SHA-256 response delivered to an authenticated request", "genuine SHA-1+SHA-256 response delivered to an authenticated request", "timed out"];
